@@ -500,3 +500,49 @@ def decides_only(outs, o, i, drop_event, tag=''):
             _SIB_CACHE.clear()
         _SIB_CACHE[key] = table
     return len(_SIB_CACHE[key].get(sig(o), ())) >= 2
+
+
+def bitscan_loop(o):
+    """Bit-scan iteration on a back-edge path: a loop-carried bitboard R (tested non-empty to go on) whose next value clears exactly its
+    lowest set bit - decided by EVALUATING the update term on test values (`R & (R - 1)`, `R & !(1 << tz(R))`, `R ^ (R & R.wrapping_neg())`
+    ... all qualify) - so that the iterations visit every set bit of R's initial value exactly once, lowest first, at index tz(R).
+    Returns {'R': term, 'R0': field-0 term, 'init': initial value term} or None."""
+    from sa.evalterm import ev, Unevaluable
+    heads = [e for e in o.events if e[0] == 'loop_head' and not isinstance(e[2], tuple)]
+    if not heads or not o.locals or o.kind != 'backedge':
+        return None
+    h = heads[-1]
+    tests = (1, 2, 3, 0x80, 0x8000000000000000, 0xff00, 0x0000001008000000, 0xffffffffffffffff, 0x8100000000000081, 0x5555555555555555, 6, 0x7000)
+    for l, init in h[3].items():
+        R = ('lv', h[2], l)
+        R0 = ('fld', R, '0')
+        nv = o.locals.get(l)
+        if nv is None or nv == R:
+            continue
+        nv0 = ('fld', nv, '0') if not (nv[0] == 'agg' and nv[4]) else dict(nv[4]).get('0', nv)
+        ok = True
+        try:
+            for x in tests:
+                got = ev(nv0, {R: x, R0: x})
+                if got != (x & (x - 1)):
+                    ok = False
+                    break
+        except (Unevaluable, TypeError, KeyError, IndexError):
+            ok = False
+        if not ok:
+            continue
+        # the loop goes on only while R is non-empty
+        nonempty = False
+        for a, v in o.conds[h[4]:]:
+            if any(s_ == R for s_ in subterms(a)):
+                try:
+                    z = ev(a, {R: 0, R0: 0})
+                    nz = ev(a, {R: 8, R0: 8})
+                except (Unevaluable, TypeError):
+                    continue
+                hold = lambda val: (val not in v[1]) if isinstance(v, tuple) and v and v[0] == 'not' else val == (int(v) if isinstance(v, bool) else v)
+                if hold(nz) and not hold(z):
+                    nonempty = True
+        if nonempty:
+            return {'R': R, 'R0': R0, 'init': init, 'head': h[2], 'local': l}
+    return None
